@@ -207,16 +207,26 @@ Definition sc_unset_h (s : scrub) (path : list string) (h : hsel) : scrub :=
   match fst h with Some t => sc_unset_type s path t (snd h) | None => sc_unset s path (snd h) end.
 Definition unset_selected (sc : sschema) (path : list string) (sub : list ssel) (s : scrub) : scrub :=
   fold_left (fun acc h => sc_unset_h acc path h) (client_selected sc sub) s.
-(* the second closing loop (since fix 360a3f6 at the end of the level, so that it sees what later selections of the same
-   response key register): below every field of the level, what the client selects himself stays *)
-Definition unset_children (sc : sschema) (ss : list ssel) (ip : list string) (s : scrub) : scrub :=
-  fold_left (fun acc x =>
-               match x with
-               | SanField a _ _ _ (y :: sub) => unset_selected sc (ip ++ [a]) (y :: sub) acc
-               | _ => acc
-               end) ss s.
-Definition closing (sc : sschema) (ss : list ssel) (ip : list string) (s : scrub) : scrub :=
-  unset_children sc ss ip (unset_level ss ip s).
+(* what the client selects himself below the fields of an operation, by the response path of the field: kept in the
+   planning context across the whole operation (a later selection of the same response key, at this level or at the
+   level of an ancestor, must not register it again) and taken out of the table whenever a level closes — so, at the
+   latest, when the outermost one does *)
+Definition pending := (list string * hsel)%type.
+Fixpoint pending_sel (sc : sschema) (ip : list string) (s : ssel) {struct s} : list pending :=
+  match s with
+  | SanField a _ _ _ sub =>
+      match sub with
+      | [] => []
+      | _ => map (fun h => (ip ++ [a], h)) (client_selected sc sub) ++
+             (fix go (l : list ssel) := match l with [] => [] | x :: r => pending_sel sc (ip ++ [a]) x ++ go r end) sub
+      end
+  | SanFrag _ _ _ sub => (fix go (l : list ssel) := match l with [] => [] | x :: r => pending_sel sc ip x ++ go r end) sub
+  end.
+Definition pending_of (sc : sschema) (ip : list string) (ss : list ssel) : list pending := flat_map (pending_sel sc ip) ss.
+Definition unset_pending (ps : list pending) (s : scrub) : scrub :=
+  fold_left (fun acc p => sc_unset_h acc (fst p) (snd p)) ps s.
+(* the closing loop of one level as far as the level's own table goes (the first loop) *)
+Definition closing (sc : sschema) (ss : list ssel) (ip : list string) (s : scrub) : scrub := unset_level ss ip s.
 
 (* one selection of sanitizeSelectionSet's loop: (result so far, scrub fields so far) -> the same after it *)
 Fixpoint san_sel (tm : tmap) (sc : sschema) (ip : list string) (s : ssel) (acc : list ssel * scrub) {struct s} : list ssel * scrub :=
@@ -260,3 +270,10 @@ Fixpoint san_sel (tm : tmap) (sc : sschema) (ip : list string) (s : ssel) (acc :
 Definition sanitize (tm : tmap) (sc : sschema) (ss : list ssel) (ip : list string) : list ssel * scrub :=
   let '(result, scr) := fold_left (fun acc x => san_sel tm sc ip x acc) ss ([], []) in
   (result, closing sc ss ip scr).
+
+(* sanitizeSelectionSet(ctx, operation.SelectionSet, nil) as the planner calls it: the table the outermost level returns.
+   Taking the client's own selections out when inner levels close as well changes nothing in it: the table only ever
+   grows otherwise, and what an inner closing takes out the outermost one takes out too *)
+Definition sanitize_op (tm : tmap) (sc : sschema) (ss : list ssel) : list ssel * scrub :=
+  let '(result, scr) := sanitize tm sc ss [] in
+  (result, unset_pending (pending_of sc [] ss) scr).
